@@ -281,6 +281,18 @@ class H1Small(H1Sequence):
         return [dict(kind="duplicate_sequence_number", sns=sns)] if len(sns) != len(set(sns)) or len(sns) != 2 else []
 
 
+class H1Lookup(H1Small):
+    """originate GBC (scans the neighbours) || GUC to an unknown station (its lookup adds a placeholder to the same table)"""
+
+    def actors(self):
+        a = H1Sequence.actors(self)
+        return [a[0], a[2]]
+
+    def check(self, s):
+        sns = [p["ext"]["sn"] for p in self.frames() if "sn" in p.get("ext", {})]    # GBC, LS request and its retransmissions
+        return [dict(kind="duplicate_sequence_number", sns=sns)] if len(sns) != len(set(sns)) or len(sns) < 2 else []
+
+
 class H3Small(H3EgoPv):
     def actors(self):
         a = H3EgoPv.actors(self)
@@ -433,6 +445,24 @@ class H6Mixed(H3EgoPv):
         return bad
 
 
+class H6Small(H6Mixed):
+    """rx(first beacon of X) || originate GBC (scans the neighbours while the table grows)"""
+
+    def actors(self):
+        return H6Mixed.actors(self)[:2]
+
+    def check(self, s):
+        bad = []
+        fr = self.frames()
+        if len(fr) != 1 or fr[0]["ext"]["so"]["addr_raw"] != ADDR_R:
+            bad.append(dict(kind="frame_count", total=len(fr)))
+        for p in fr:
+            so = p["ext"]["so"]
+            if (so["lat"], so["lon"], so["s"], so["h"], so["tst"]) not in self.pvs:
+                bad.append(dict(kind="torn_position_vector", so=[so["lat"], so["lon"], so["s"], so["h"], so["tst"]]))
+        return bad
+
+
 class H5Small(H5Dpd):
     def actors(self):
         return H5Dpd.actors(self)[:2]
@@ -446,7 +476,7 @@ class H5Small(H5Dpd):
         return bad
 
 
-HARNESSES = {"H6": H6Mixed, "H4b": H4Beacon, "H4c": H4BeaconB, "H4p": H4Prebuffered, "H4t": H4Timeout, "H1s": H1Small, "H3s": H3Small, "H4s": H4Small, "H5s": H5Small, "H1": H1Sequence, "H2": H2Cbf, "H2b": H2bSeam, "H3": H3EgoPv, "H4": H4LocationService, "H5": H5Dpd}
+HARNESSES = {"H1l": H1Lookup, "H6": H6Mixed, "H6s": H6Small, "H4b": H4Beacon, "H4c": H4BeaconB, "H4p": H4Prebuffered, "H4t": H4Timeout, "H1s": H1Small, "H3s": H3Small, "H4s": H4Small, "H5s": H5Small, "H1": H1Sequence, "H2": H2Cbf, "H2b": H2bSeam, "H3": H3EgoPv, "H4": H4LocationService, "H5": H5Dpd}
 
 
 def make(name):
@@ -455,8 +485,8 @@ def make(name):
 
 def run(ctx):
     thorough = ctx.tier == "thorough"
-    plan = {"H1s": 1, "H2": 1, "H2b": 2, "H3s": 1, "H4s": 1, "H4t": 1, "H4p": 1, "H4b": 1, "H5s": 1} if not thorough else \
-           {"H1s": 2, "H1": 1, "H2": 2, "H2b": 3, "H3s": 2, "H3": 1, "H4s": 2, "H4t": 2, "H4p": 2, "H4b": 2, "H4c": 1, "H4": 1, "H5s": 2, "H5": 1, "H6": 1}
+    plan = {"H1s": 1, "H1l": 1, "H2": 1, "H2b": 2, "H3s": 1, "H4s": 1, "H4t": 1, "H4p": 1, "H4b": 1, "H5s": 1, "H6s": 1} if not thorough else \
+           {"H1s": 2, "H1l": 2, "H1": 1, "H2": 2, "H2b": 3, "H3s": 2, "H3": 1, "H4s": 2, "H4t": 2, "H4p": 2, "H4b": 2, "H4c": 1, "H4": 1, "H5s": 2, "H5": 1, "H6s": 2, "H6": 1}
     tot_s = tot_steps = 0
     outcomes = 0
     samples = []
